@@ -375,6 +375,235 @@ pub mod cn {
     }
     pub open spec fn rooted(t: Seq<u8>) -> bool { t.len() > 0 && sep(t[0]) }
     pub open spec fn location(t: Seq<u8>) -> (bool, (int, Seq<Seq<u8>>)) { (rooted(t), loc(t, 0, 0, Seq::<Seq<u8>>::empty())) }
+    // --- unbounded lemma: canon(s) denotes the same lexical location as s
+    pub open spec fn at_boundary(a: Seq<u8>) -> bool { a.len() == 0 || sep(a[a.len() - 1]) }
+    pub proof fn lemma_comp_end_prefix(a: Seq<u8>, x: Seq<u8>, i: int)
+        requires 0 <= i < a.len(), sep(a[a.len() - 1])
+        ensures comp_end(a + x, i) == comp_end(a, i), comp_end(a, i) <= a.len()
+        decreases a.len() - i
+    {
+        let t = a + x;
+        assert(t[i] == a[i]);
+        if !sep(a[i]) { lemma_comp_end_prefix(a, x, i + 1); }
+    }
+    /// scanning a + x where a ends at a component boundary = scanning a, then x with what a left
+    pub proof fn lemma_loc_concat(a: Seq<u8>, x: Seq<u8>, i: int, u: int, n: Seq<Seq<u8>>)
+        requires at_boundary(a), 0 <= i <= a.len()
+        ensures loc(a + x, i, u, n) == loc(x, 0, loc(a, i, u, n).0, loc(a, i, u, n).1)
+        decreases a.len() + 3 - i
+    {
+        let t = a + x;
+        if i >= a.len() {
+            // the scan of t continues in x: shift
+            lemma_loc_shift(a, x, 0, u, n);
+        } else {
+            assert(t[i] == a[i]);
+            if sep(a[i]) {
+                lemma_loc_concat(a, x, i + 1, u, n);
+            } else {
+                // i is inside a component of a that ends with a separator inside a
+                assert(i + 1 < a.len()) by { if i + 1 >= a.len() { assert(a[a.len() - 1] == a[i]); } }
+                assert(t[i + 1] == a[i + 1]);
+                if a[i] == DOT && sep(a[i + 1]) {
+                    lemma_loc_concat(a, x, i + 2, u, n);
+                } else if a[i] == DOT && a[i + 1] == DOT && i + 2 >= a.len() {
+                    assert(a[a.len() - 1] == a[i + 1]);
+                    assert(false);
+                } else {
+                    if i + 2 < a.len() { assert(t[i + 2] == a[i + 2]); }
+                    assert(dotdot_at(t, i) == dotdot_at(a, i));
+                    if dotdot_at(a, i) {
+                        if n.len() > 0 { lemma_loc_concat(a, x, i + 3, u, n.drop_last()); } else { lemma_loc_concat(a, x, i + 3, u + 1, n); }
+                    } else {
+                        lemma_comp_end(a, i);
+                        lemma_comp_end_prefix(a, x, i);
+                        let e = comp_end(a, i);
+                        assert(t.subrange(i, e) =~= a.subrange(i, e));
+                        assert(t.subrange(i, e - 1) =~= a.subrange(i, e - 1));
+                        assert(t[e - 1] == a[e - 1]);
+                        assert(name_at(t, i) == name_at(a, i));
+                        lemma_loc_concat(a, x, e, u, n.push(name_at(a, i)));
+                    }
+                }
+            }
+        }
+    }
+    pub proof fn lemma_loc_shift(a: Seq<u8>, x: Seq<u8>, i: int, u: int, n: Seq<Seq<u8>>)
+        requires 0 <= i
+        ensures loc(a + x, a.len() + i, u, n) == loc(x, i, u, n)
+        decreases x.len() + 3 - i
+    {
+        let t = a + x;
+        let m = a.len() as int;
+        if i < x.len() {
+            assert(t[m + i] == x[i]);
+            if i + 1 < x.len() { assert(t[m + i + 1] == x[i + 1]); }
+            if i + 2 < x.len() { assert(t[m + i + 2] == x[i + 2]); }
+            assert(dotdot_at(t, m + i) == dotdot_at(x, i));
+            if sep(x[i]) { lemma_loc_shift(a, x, i + 1, u, n); }
+            else if x[i] == DOT && i + 1 >= x.len() { }
+            else if x[i] == DOT && sep(x[i + 1]) { lemma_loc_shift(a, x, i + 2, u, n); }
+            else if dotdot_at(x, i) { if n.len() > 0 { lemma_loc_shift(a, x, i + 3, u, n.drop_last()); } else { lemma_loc_shift(a, x, i + 3, u + 1, n); } }
+            else {
+                lemma_comp_end(x, i);
+                lemma_comp_end_shift(a, x, i);
+                let e = comp_end(x, i);
+                assert(t.subrange(m + i, m + e) =~= x.subrange(i, e));
+                assert(t.subrange(m + i, m + e - 1) =~= x.subrange(i, e - 1));
+                assert(t[m + e - 1] == x[e - 1]);
+                assert(name_at(t, m + i) == name_at(x, i));
+                lemma_loc_shift(a, x, e, u, n.push(name_at(x, i)));
+            }
+        }
+    }
+    pub open spec fn nil() -> Seq<Seq<u8>> { Seq::<Seq<u8>>::empty() }
+    /// the output so far, and every prefix the stack can cut it back to, denote (ups, the first k names)
+    pub open spec fn lfam(out: Seq<u8>, st: Seq<usize>, ups: int, names: Seq<Seq<u8>>) -> bool {
+        &&& st.len() == names.len() && stack_ok(st, out.len() as int)
+        &&& forall|k: int| 0 <= k <= st.len() ==> at_boundary(#[trigger] pref(out, st, k)) && loc(pref(out, st, k), 0, 0, nil()) == (ups, names.take(k))
+    }
+    pub proof fn lemma_run_loc(s: Seq<u8>, src: int, out: Seq<u8>, st: Seq<usize>, ups: int, names: Seq<Seq<u8>>)
+        requires 0 <= src, lfam(out, st, ups, names), out.len() <= src, s.len() <= usize::MAX
+        ensures loc(run(s, src, out, st), 0, 0, nil()) == loc(s, src, ups, names)
+        decreases s.len() + 3 - src
+    {
+        assert(pref(out, st, st.len() as int) == out);
+        assert(names.take(names.len() as int) =~= names);
+        if src >= s.len() || (s[src] == DOT && src + 1 >= s.len()) {
+            if src < s.len() && sep(s[src]) { lemma_run_loc(s, src + 1, out, st, ups, names); }
+        } else if sep(s[src]) {
+            lemma_run_loc(s, src + 1, out, st, ups, names);
+        } else if s[src] == DOT && sep(s[src + 1]) {
+            lemma_run_loc(s, src + 2, out, st, ups, names);
+        } else if dotdot_at(s, src) {
+            if st.len() > 0 {
+                let out2 = out.take(st.last() as int);
+                let st2 = st.drop_last();
+                let names2 = names.drop_last();
+                assert(lfam(out2, st2, ups, names2)) by {
+                    assert forall|k: int| 0 <= k <= st2.len() implies at_boundary(#[trigger] pref(out2, st2, k)) && loc(pref(out2, st2, k), 0, 0, nil()) == (ups, names2.take(k)) by {
+                        assert(names2.take(k) =~= names.take(k));
+                        if k < st2.len() { assert(st[k] <= st[st.len() - 1]); assert(pref(out2, st2, k) =~= pref(out, st, k)); }
+                        else { assert(pref(out2, st2, k) =~= pref(out, st, st.len() - 1)); }
+                    }
+                    assert(stack_ok(st2, out2.len() as int)) by {
+                        assert forall|k: int| 0 <= k < st2.len() implies #[trigger] st2[k] <= out2.len() by { assert(st[k] <= st[st.len() - 1]); }
+                    }
+                }
+                lemma_run_loc(s, src + 3, out2, st2, ups, names2);
+            } else {
+                let dd = seq![DOT, DOT] + (if src + 2 < s.len() { seq![s[src + 2]] } else { Seq::<u8>::empty() });
+                let out2 = out + seq![DOT, DOT] + (if src + 2 < s.len() { seq![s[src + 2]] } else { Seq::<u8>::empty() });
+                assert(out2 =~= out + dd);
+                assert(names =~= nil());
+                lemma_loc_concat(out, dd, 0, 0, nil());
+                assert(dd[0] == DOT && dd[1] == DOT);
+                assert(dotdot_at(dd, 0));
+                assert(loc(dd, 3, ups + 1, nil()) == (ups + 1, nil()));
+                assert(loc(dd, 0, ups, nil()) == (ups + 1, nil()));
+                if src + 2 < s.len() {
+                    assert(lfam(out2, st, ups + 1, names)) by {
+                        assert(pref(out2, st, 0) == out2);
+                        assert(names.take(0) =~= nil());
+                        assert(out2[out2.len() - 1] == s[src + 2]);
+                    }
+                    lemma_run_loc(s, src + 3, out2, st, ups + 1, names);
+                } else {
+                    assert(run(s, src + 3, out2, st) == out2);
+                    assert(loc(s, src + 3, ups + 1, names) == (ups + 1, names));
+                    assert(loc(s, src, ups, names) == loc(s, src + 3, ups + 1, names));
+                }
+            }
+        } else {
+            lemma_comp_end(s, src);
+            let e = comp_end(s, src);
+            let c = s.subrange(src, e);
+            let out2 = out + c;
+            let st2 = st.push(out.len() as usize);
+            let nm = name_at(s, src);
+            let names2 = names.push(nm);
+            assert(out.len() as usize == out.len());
+            // scanning c from 0 with (ups, names): one ordinary component
+            lemma_loc_concat(out, c, 0, 0, nil());
+            assert(c[0] == s[src]);
+            if c.len() >= 2 { assert(c[1] == s[src + 1]); }
+            if c.len() >= 3 { assert(c[2] == s[src + 2]); }
+            if s[src] == DOT { assert(e >= src + 2) by { if e < src + 2 { assert(e == src + 1); } } }
+            if s[src] == DOT && s[src + 1] == DOT { assert(e >= src + 3) by { if e < src + 3 { assert(e == src + 2); } } }
+            assert(!dotdot_at(c, 0));
+            assert forall|j: int| 0 <= j < c.len() - 1 implies !sep(#[trigger] c[j]) by { assert(c[j] == s[src + j]); }
+            assert(c[c.len() - 1] == s[e - 1]);
+            lemma_comp_end_is(c, 0, c.len() as int);
+            assert(c.subrange(0, c.len() as int) =~= s.subrange(src, e));
+            assert(c.subrange(0, c.len() - 1) =~= s.subrange(src, e - 1));
+            assert(name_at(c, 0) == nm);
+            assert(loc(c, c.len() as int, ups, names2) == (ups, names2));
+            assert(loc(c, 0, ups, names) == (ups, names2));
+            assert(loc(out2, 0, 0, nil()) == (ups, names2));
+            if e < s.len() || sep(s[e - 1]) {
+                assert(lfam(out2, st2, ups, names2)) by {
+                    assert forall|k: int| 0 <= k <= st2.len() implies at_boundary(#[trigger] pref(out2, st2, k)) && loc(pref(out2, st2, k), 0, 0, nil()) == (ups, names2.take(k)) by {
+                        if k < st.len() { assert(pref(out2, st2, k) =~= pref(out, st, k)); assert(names2.take(k) =~= names.take(k)); }
+                        else if k == st.len() { assert(st2[k] == out.len()); assert(pref(out2, st2, k) =~= out); assert(names2.take(k) =~= names); }
+                        else { assert(pref(out2, st2, k) == out2); assert(names2.take(k) =~= names2); assert(out2[out2.len() - 1] == s[e - 1]); }
+                    }
+                    assert(stack_ok(st2, out2.len() as int)) by {
+                        assert forall|k: int| 0 <= k < st2.len() implies #[trigger] st2[k] <= out2.len() by { if k < st.len() { assert(st2[k] == st[k]); } }
+                        assert forall|a: int, b: int| 0 <= a < b < st2.len() implies st2[a] <= st2[b] by { if b < st.len() { assert(st2[a] == st[a] && st2[b] == st[b]); } else { assert(st2[a] == st[a]); } }
+                    }
+                }
+                lemma_run_loc(s, e, out2, st2, ups, names2);
+            } else {
+                assert(run(s, e, out2, st2) == out2);
+                assert(loc(s, e, ups, names2) == (ups, names2));
+                assert(loc(s, src, ups, names) == loc(s, e, ups, names2));
+            }
+        }
+    }
+    /// C13: the canonical spelling denotes the same location
+    pub proof fn lemma_canon_location(s: Seq<u8>)
+        requires 0 < s.len() <= usize::MAX
+        ensures location(canon(s)).0 == location(s).0, location(canon(s)).1 == location(s).1
+    {
+        let st = Seq::<usize>::empty();
+        lemma_canon_canonical(s);
+        if sep(s[0]) {
+            let out = seq![s[0]];
+            assert(lfam(out, st, 0, nil())) by {
+                assert(pref(out, st, 0) == out);
+                assert(nil().take(0) =~= nil());
+                assert(loc(out, 1, 0, nil()) == (0int, nil()));
+            }
+            lemma_run_loc(s, 1, out, st, 0, nil());
+            // the root is kept
+            assert(fam(out, st, 1)) by {
+                assert forall|x: Seq<u8>| #[trigger] cont_ok(x, false) implies canonical_from(out + x, 1, false) by { lemma_cf_shift(out, x, 0, false); }
+                assert(pref(out, st, 0) == out);
+            }
+            lemma_run_canon(s, 1, out, st, 1);
+            let r = run(s, 1, out, st);
+            assert(r.take(1) =~= out); assert(r.take(1)[0] == r[0]);
+        } else {
+            let out = Seq::<u8>::empty();
+            assert(lfam(out, st, 0, nil())) by {
+                assert(pref(out, st, 0) == out);
+                assert(nil().take(0) =~= nil());
+            }
+            lemma_run_loc(s, 0, out, st, 0, nil());
+            let r = run(s, 0, out, st);
+            assert(fam(out, st, 0)) by {
+                assert forall|x: Seq<u8>| #[trigger] cont_ok(x, false) implies canonical_from(out + x, 0, false) by { assert(out + x =~= x); }
+                assert(pref(out, st, 0) == out);
+            }
+            lemma_run_canon(s, 0, out, st, 0);
+            if r.len() == 0 {
+                let d = seq![DOT];
+                assert(loc(d, 0, 0, nil()) == (0int, nil()));
+            } else {
+                assert(!sep(r[0]));
+            }
+        }
+    }
     /// C13, for one input: idempotent, never longer, canonical form, same location
     pub open spec fn adequate(s: Seq<u8>) -> bool {
         let c = canon(s);
